@@ -250,7 +250,7 @@ func candidates(sc *Scenario, last *Result) []*Scenario {
 	// fewer active optional sites
 	for name := range sc.Sites {
 		name := name
-		if name == "prod" || name == "close" || name == "start" {
+		if name == "prod" || name == "close" || name == "start" || name == "caller" || name == "eval.pre" || name == "eval.post" {
 			continue
 		}
 		add(func(c *Scenario) bool {
